@@ -318,13 +318,18 @@ func Build(seed uint64, flags int) *Result {
 		fmt.Fprintf(&body, "</%s>", b.w("tbl"))
 		para(b.run(""), "")
 	}
+	// media types as other producers spell them (own stream): what a part's content type is must survive, whatever the library
+	// would have written itself
+	mt := sim.NewRand(seed ^ 0x6d74797065)
+	pngType := []string{"image/png", "image/png", "image/png", "image/x-png"}[mt.Intn(4)]
+	oddJPEG := mt.Intn(3) == 0
 	if flags&FBodyImages != 0 {
 		names := []string{"image1." + pngExt, "image007.png", "picture.png", "IMAGE2.PNG", "image3.png.bak", "图.png", "image0.png"}
 		r2 := r.Perm(len(names))
 		k := r.Range(1, 3)
 		for i := 0; i < k; i++ {
 			name := names[r2[i]]
-			b.def(name[strings.LastIndex(name, ".")+1:], "image/png")
+			b.def(name[strings.LastIndex(name, ".")+1:], pngType)
 			b.put("word/media/"+name, string(pngBytes(1000+i+int(seed%1000)*10)))
 			mediaMain = append(mediaMain, "word/media/"+name)
 			id := b.addRel(nsR+"/image", "media/"+name, "")
@@ -335,8 +340,12 @@ func Build(seed uint64, flags int) *Result {
 	if flags&FBodyImages != 0 && r.Bool() {
 		// a JPEG registered the way Word does it: extension "jpg" (or "JPG") for image/jpeg
 		ext := r.Pick("jpg", "jpg", "JPG", "jpe")
+		jt := "image/jpeg"
+		if oddJPEG {
+			ext, jt = "jpeg", []string{"image/jpg", "image/pjpeg"}[mt.Intn(2)]
+		}
 		name := "photo." + ext
-		b.def(ext, "image/jpeg")
+		b.def(ext, jt)
 		b.put("word/media/"+name, string(append([]byte{0xFF, 0xD8, 0xFF, 0xE0, 0, 0x10, 'J', 'F', 'I', 'F', 0}, []byte(fmt.Sprintf("uniqjpg%08d", seed%100000000))...)))
 		mediaMain = append(mediaMain, "word/media/"+name)
 		id := b.addRel(nsR+"/image", "media/"+name, "")
